@@ -61,6 +61,7 @@ instance : RFun Float where
   ln := Float.log
   log10 := Float.log10
   log2 := Float.log2
+  exp2 := Float.exp2
   sqrt := Float.sqrt
   sin := Float.sin
   cos := Float.cos
